@@ -13,6 +13,9 @@ op lines
   slowlog <arg>…  `SlowRequestLogger::add` (arg = hex, `~` = not a bulk string) → ok | PANIC
   name <hex>      `CmdType` / `DataCmdType` of a command with this name → <CmdType> <DataCmdType>
   clustername <hex> / usize <hex> / atoi <hex> / utf8 <hex>
+  rangemap <s-e>…            `RangeMap::from` on the list as given → ok contains=<n> | PANIC
+  setcluster t|z <s-e>…      `UMCTL SETCLUSTER` (textual | compressed) with one MIGRATING range list of a local
+                             node, through the real `server_proxy` → ok | closed | stalled
 -/
 namespace Um.Drv.Hostile
 open Um Um.PC
@@ -107,6 +110,17 @@ def connOp (st : St) (b : Bytes) : String :=
   else if r.end == .pending then s!"pending {r.packets.length}"
   else s!"alive {r.packets.length}"
 
+def rangeOf (t : String) : Option Um.Proto.Range :=
+  match t.splitOn "-" with
+  | [a, b] =>
+    match a.toNat?, b.toNat? with
+    | some x, some y => some ⟨x, y⟩
+    | _, _ => none
+  | _ => none
+
+def rangeMapCur (rs : List Um.Proto.Range) : RangeMapRes :=
+  rangeMapFrom Um.Gen.Hostile.rangeMapBounded Um.Gen.Hostile.overflowChecks rs
+
 def argOf (t : String) : Option (Option Bytes) :=
   if t == "~" then some none else (bytesOfHex t).map some
 
@@ -159,6 +173,22 @@ def step (st : St) (toks : List String) : St × String :=
   | ["utf8", h] =>
     match bytesOfHex h with
     | some b => (st, if utf8Valid b then "valid" else "invalid")
+    | none => (st, "bad-op")
+  | "rangemap" :: rest =>
+    match rest.mapM rangeOf with
+    | some rs =>
+      let r := rangeMapCur rs
+      match r.out with
+      | .panic _ => (st, "PANIC")
+      | _ => (st, s!"ok contains={r.contains}")
+    | none => (st, "bad-op")
+  | "setcluster" :: form :: rest =>
+    match rest.mapM rangeOf with
+    | some rs =>
+      let r := rangeMapCur (rangesSeen Um.Gen.Hostile.compressedCompact (form == "t") rs)
+      match r.out with
+      | .panic _ => (st, "closed")
+      | _ => (st, if r.steps > st.spin then "stalled" else "ok")
     | none => (st, "bad-op")
   | _ => (st, "bad-op")
 
